@@ -89,6 +89,7 @@ type PathState struct {
 	inconclusive []string
 	mayPanicDepth int
 	eventsOff bool
+	notes     []string
 	sites     map[*mergeSite]*siteStat
 	masks     map[*Term]bset
 }
@@ -887,4 +888,12 @@ func renderValue(v Value, env *evalEnv) string {
 		return x.t.name + ":" + renderValue(x.v, env)
 	}
 	return fmt.Sprintf("<%T>", v)
+}
+
+// note records a diagnostic that is not a violation by itself.
+func (it *Interp) note(fr *frame, kind, detail string) {
+	if it.ps == nil || it.spec > 0 {
+		return
+	}
+	it.ps.notes = append(it.ps.notes, kind+": "+detail)
 }
